@@ -20,6 +20,9 @@ Two input families:
           messages that no step names are lost (witnesses in corpus/C11, their mutations, and the
           generated `diverge` scenarios: two leaders with conflicting uncommitted suffixes);
           a `fence` step closes a block: messages sent before it cannot claim a step after it.
+          `lagback` scenarios: followers that lagged across a leader change are walked back through the
+          refuse-and-retry path, a command lands on the new leader between a heartbeat and its
+          acknowledgements, the leader is cut off at once, the rest elects another leader
           `reelect` scenarios (built from fenced blocks): the same node leads twice, its minority
           followers' logs are rewritten by another leader in between, their replies are lost after
           the re-election, a node without the new commands is elected by the rest
@@ -93,7 +96,8 @@ class C11(core.Property):
     rule = ("family lat: 3–5 RaftNodes, 1.2–3 s of simulated time, heartbeat 60–120 ms, election timeouts 150–400 ms drawn from the case, "
             "per-message latency from a menu 1–600 ms, 0–8 client commands (set/get/delete/cas on 3 keys) to the current leader or a fixed node, "
             "0–2 crash/restart windows, 0–2 partitions, 0–6 lost messages; family script: step lists (corpus witnesses and their mutations, "
-            "diverge scenarios, reelect scenarios: one node leads twice with rewritten follower logs in between and selectively lost replies); "
+            "diverge scenarios, reelect scenarios: one node leads twice with rewritten follower logs in between and selectively lost replies, "
+            "lagback scenarios: lagging followers caught up by refusal/retry rounds, a submit between a heartbeat and its acks, the leader cut off, a new leader); "
             "next_index/match_index of the event's target are compared after every step; "
             "family stable: no faults, latency ≤ 5 ms; non-trivial = some node became leader; distinct = distinct recorded schedule")
     trusted_base = [
@@ -138,6 +142,8 @@ class C11(core.Property):
             return self.gen_stable(rng, tier)
         if k == 8:
             return self.gen_script(rng, tier)
+        if k == 7 and (i // 10) % 2 == 1:
+            return self.gen_lagback(rng, tier)
         if k in (6, 7):
             return self.gen_diverge(rng, tier)
         if k == 5:
@@ -469,6 +475,93 @@ class C11(core.Property):
         return {"family": "script", "n": n, "steps": P.steps, "gen": "reelect",
                 "plan": {"A": A, "S1": S1, "B": B, "R3": R3, "X": X, "k": [k1, k2, k3, k4], "loose": loose}}
 
+    def gen_lagback(self, rng, tier):
+        """followers that lagged across a leader change are walked back (refused AppendEntries, retry
+        with a lower prev_log_index, possibly several rounds, accepted at prev_log_index >= 1 or 0);
+        then a heartbeat of the new leader B goes out, a client command lands on B between that
+        heartbeat and its acknowledgements, the acknowledgements of some up-to-date followers come
+        back, and B is never heard again; the rest elects a leader and commits other commands.
+        What B believes about the walked-back followers (match_index after the retry path) decides
+        whether it commits the command alone.  Sizes, who lags and by how much, how many retry
+        rounds are delivered, the order heartbeat/submit, who acknowledges, all vary."""
+        n = rng.choice([3, 3, 5, 5, 4])
+        q = n // 2 + 1
+        ids = list(range(n))
+        rng.shuffle(ids)
+        A, B, rest = ids[0], ids[1], ids[2:]
+        P = self._Plot(rng, n)
+        loose = rng.random() < 0.25
+
+        def some(xs, lo, hi):
+            xs = list(xs)
+            rng.shuffle(xs)
+            return xs[: max(0, min(len(xs), rng.randint(lo, hi)))]
+
+        nl = q - 1 if not loose else rng.randint(0, max(0, len(rest)))
+        Ls = some(rest, nl, nl)                      # the laggers
+        R = [j for j in rest if j not in Ls]          # followers that keep up
+        if rng.random() < 0.25:
+            P.elect(rng.choice(ids), [], times=1)     # a lonely candidacy: unequal terms at the start
+        others_A = [j for j in ids if j != A]
+        P.elect(A, some(others_A, q - 1, n - 1), some(others_A, 0, n - 1), others_A, times=rng.choice([1, 1, 2]))
+        # act 1: everybody gets k0 commands, then only B and R get k1 more (a lagger may get a part of them)
+        k0 = rng.choice([0, 1, 1, 2, 3])
+        P.submits(A, k0)
+        if k0:
+            P.replicate(A, others_A, others_A, rounds=rng.choice([1, 2]))
+        k1 = rng.choice([1, 2, 2, 3])
+        depth = {}
+        for r in range(k1):
+            P.submits(A, 1)
+            part = [j for j in Ls if rng.random() < 0.25 and depth.get(j, r) == r]  # still contiguous for this lagger
+            for j in part:
+                depth[j] = r + 1
+            tg = [B] + R + part
+            P.replicate(A, tg, tg, rounds=1)
+        P.replicate(A, [B] + R, [B] + R, rounds=1)      # the commit index reaches them
+        # act 2: B takes over and walks the laggers back
+        others_B = [j for j in ids if j != B]
+        V2 = Ls + some(R + [A], 0, len(R) + 1)
+        if len(V2) < q - 1:
+            V2 = others_B[:]
+        P.elect(B, V2, [], [], times=rng.choice([1, 1, 2]))
+        walked = others_B if not loose else some(others_B, 1, len(others_B))
+        P.replicate(B, walked, walked, rounds=1, retries=k1 + rng.choice([0, 0, 1]) - (1 if loose and rng.random() < 0.5 else 0))
+        if rng.random() < 0.3:                          # a plain heartbeat round that some of them acknowledge
+            hs = some(others_B, 0, len(others_B))
+            P.replicate(B, hs, hs, rounds=1)
+        # act 3: heartbeat, command(s), acknowledgements of followers that were never walked back
+        T = some(R + [A], 1, len(R) + 1) if not loose else some(others_B, 0, len(others_B))
+        order = rng.choice(["hb-submit", "hb-submit", "hb-submit", "submit-hb"])
+        k3 = rng.choice([1, 1, 2])
+        if order == "submit-hb":
+            P.submits(B, k3)
+        P.steps.append(["hb", B])
+        for j in T:
+            P.steps.append(["deliver", "ae", B, j, 0])
+        if order == "hb-submit":
+            P.submits(B, k3)
+        for j in T:
+            if rng.random() < 0.9:
+                P.steps.append(["deliver", "ar", j, B, 0])
+        P.fence()
+        # act 4: B is cut off; the others elect C, which commits its own commands
+        pool = others_B
+        C = rng.choice(pool)
+        V4 = [j for j in pool if j != C]
+        if loose:
+            V4 = some(V4, min(len(V4), q - 1), len(V4))
+        P.elect(C, V4, V4, V4, times=rng.choice([2, 2, 3]))
+        k4 = rng.choice([1, 1, 2])
+        P.submits(C, k4)
+        P.replicate(C, V4, V4, rounds=2, retries=k1 + 1)
+        # act 5: sometimes B hears C again
+        if rng.random() < 0.5:
+            allc = [j for j in ids if j != C]
+            P.replicate(C, allc, allc, rounds=2, retries=k1 + k3 + 2)
+        return {"family": "script", "n": n, "steps": P.steps, "gen": "lagback",
+                "plan": {"A": A, "B": B, "Ls": Ls, "C": C, "k": [k0, k1, k3, k4], "order": order, "loose": loose}}
+
     # ------------------------------------------------------------------ implementation
     def run_impl(self, case):
         lines = self._run(case)
@@ -574,9 +667,11 @@ class C11(core.Property):
                 elif t == "vr":
                     body = f"vr {md['term']} {int(bool(md['vote_granted']))} {idx[md['from']]}"
                 elif t == "ae":
-                    ents = " ".join(f"{e['term']}:{e['command']['id']}" for e in md["entries"])
                     k0 = md["prev_log_index"]
-                    assert all(e["index"] == k0 + 1 + j for j, e in enumerate(md["entries"])), "entry indices not consecutive"
+                    # an entry is printed as term:id; its own index only when it is not prev_log_index + 1 + position
+                    # (the follower places entries by that field, so such a message is a legal input; the model never sends one)
+                    ents = " ".join(f"{e['term']}:{e['command']['id']}" + ("" if e["index"] == k0 + 1 + j else f"@{e['index']}")
+                                    for j, e in enumerate(md["entries"]))
                     body = (f"ae {md['term']} {idx[md['leader_id']]} {md['prev_log_index']} {md['prev_log_term']} "
                             f"{md['leader_commit']} E" + (" " + ents if ents else ""))
                 else:
